@@ -57,6 +57,23 @@ func plainLen(t *rapid.T) int {
 
 func keyLen(t *rapid.T) int { return rapid.SampledFrom([]int{16, 24, 32}).Draw(t, "klen") }
 
+// keyGen: mostly fresh random keys, but a third of the cases take their key from a fixed pool of 400 keys, so
+// that within one process the same key comes back after hundreds of other keys have been used (state kept per
+// key - caches of expanded keys or AEAD instances - is exercised across cases, not only within one).
+func keyGen(t *rapid.T) []byte {
+	n := keyLen(t)
+	if rapid.IntRange(0, 2).Draw(t, "pooled") != 0 {
+		return g.BytesLen(n).Draw(t, "key")
+	}
+	i := rapid.IntRange(0, 399).Draw(t, "poolKey")
+	k := make([]byte, n)
+	for j := range k {
+		k[j] = byte(i*31 + j*7 + i>>3)
+	}
+	k[0], k[1] = byte(i), byte(i>>8)
+	return k
+}
+
 // ---------------------------------------------------------------- CBC
 
 type cbcCase struct {
@@ -68,7 +85,7 @@ type cbcCase struct {
 
 func genCBC(t *rapid.T) cbcCase {
 	return cbcCase{
-		Key:        g.BytesLen(keyLen(t)).Draw(t, "key"),
+		Key:        keyGen(t),
 		IV:         g.BytesLen(16).Draw(t, "iv"),
 		Plain:      g.BytesLen(plainLen(t)).Draw(t, "plain"),
 		InPlaceEnc: rapid.Bool().Draw(t, "inplaceEnc"),
@@ -111,6 +128,28 @@ func runCBC(c cbcCase, r *pb.Rec) error {
 	}
 	if !bytes.Equal(key, c.Key) || !bytes.Equal(iv, c.IV) || (!c.InPlaceEnc && !bytes.Equal(plain, c.Plain)) {
 		return fmt.Errorf("AESCBCEncrypt modified key, iv or plaintext")
+	}
+	if len(c.Plain)%16 == 5 && c.Key[0]%4 == 1 {
+		// the same key again after 300 other keys of all three sizes have been used (CBC and GCM): still the standard result
+		for i := 0; i < 300; i++ {
+			k := make([]byte, []int{16, 24, 32}[i%3])
+			k[0], k[1], k[2] = byte(i), byte(i>>8), 0x5c
+			d := make([]byte, cryptz.AESCBCEncryptLen("other"))
+			cryptz.AESCBCEncrypt(d, []byte("other"), k, c.IV)
+			g := make([]byte, 5+16)
+			cryptz.AESGCMEncrypt(g, []byte("other"), k, c.IV[:12], nil)
+		}
+		again := make([]byte, encLen)
+		if err := cryptz.AESCBCEncrypt(again, append([]byte(nil), c.Plain...), key, iv); err != nil || !bytes.Equal(again, want) {
+			return fmt.Errorf("AESCBCEncrypt with a key used again after 300 other keys = %x, %v want %x", again, err, want)
+		}
+		a, _ := cipher.NewGCM(blk)
+		wantG := a.Seal(nil, c.IV[:12], c.Plain, nil)
+		gotG := make([]byte, len(wantG))
+		if err := cryptz.AESGCMEncrypt(gotG, c.Plain, key, c.IV[:12], nil); err != nil || !bytes.Equal(gotG, wantG) {
+			return fmt.Errorf("AESGCMEncrypt with a key used again after 300 other keys = %x, %v want %x", gotG, err, wantG)
+		}
+		r.Class("key used again after 300 other keys")
 	}
 	// decrypt
 	if cryptz.AESCBCDecryptLen(want) != len(want) {
@@ -225,7 +264,7 @@ type gcmCase struct {
 
 func genGCM(t *rapid.T) gcmCase {
 	return gcmCase{
-		Key:          g.BytesLen(keyLen(t)).Draw(t, "key"),
+		Key:          keyGen(t),
 		Nonce:        g.BytesLen(rapid.OneOf(rapid.Just(12), rapid.IntRange(1, 16), rapid.IntRange(1, 40), rapid.SampledFrom([]int{15, 16, 17, 24, 31, 32, 33, 64, 100, 255, 256, 1000})).Draw(t, "nlen")).Draw(t, "nonce"),
 		AAD:          g.BytesLen(rapid.OneOf(rapid.IntRange(0, 40), rapid.IntRange(0, 40), rapid.SampledFrom([]int{127, 128, 129, 255, 256, 1000, 5000})).Draw(t, "alen")).Draw(t, "aad"),
 		Plain:        g.BytesLen(plainLen(t)).Draw(t, "plain"),
@@ -503,7 +542,7 @@ func genCBCBad(t *rapid.T) cbcBadCase {
 	if rapid.IntRange(0, 4).Draw(t, "cut") == 0 {
 		cut = rapid.IntRange(0, len(d)+3).Draw(t, "cutTo")
 	}
-	return cbcBadCase{Key: g.BytesLen(keyLen(t)).Draw(t, "key"), IV: g.BytesLen(16).Draw(t, "iv"), Blocks: d, CutTo: cut, InPlace: rapid.Bool().Draw(t, "inplace")}
+	return cbcBadCase{Key: keyGen(t), IV: g.BytesLen(16).Draw(t, "iv"), Blocks: d, CutTo: cut, InPlace: rapid.Bool().Draw(t, "inplace")}
 }
 
 func runCBCBad(c cbcBadCase, r *pb.Rec) error {
@@ -573,7 +612,7 @@ func FuzzUnpad(f *testing.F) {
 }
 
 func init() {
-	pb.Register("cbc", pb.Options{Base: 8000, Required: []string{"full-block padding", "empty plaintext", "in place", "24/32-byte key"},
+	pb.Register("cbc", pb.Options{Base: 8000, Required: []string{"full-block padding", "empty plaintext", "in place", "24/32-byte key", "key used again after 300 other keys"},
 		Rule: "keys 16/24/32, 16-byte IV, plaintext 0..80 biased to block boundaries, fresh (dirty) or documented in-place dst; oracle crypto/cipher CBC over reference PKCS#7, length helpers, decrypt == plaintext; non-trivial = block-aligned plaintext or in-place layout"},
 		genCBC, runCBC)
 	pb.Register("key_sizes", pb.Options{Base: 800, Rule: "every key length 0..40 for the four AES entry points; oracle error <=> length not in {16,24,32}; non-trivial = invalid length"}, genKey, runKey)
